@@ -41,14 +41,14 @@ where bytesLt' : Bytes → Bytes → Bool
   | a :: as, b :: bs => a < b || (a == b && bytesLt' as bs)
 
 /-- C02 conditions on the dumped key material -/
-def judgeKeygen (inp : Json) : List String :=
+def judgeKeygenWith (requireAll : Bool) (inp : Json) : List String :=
   let kind := jstr inp "kind"
   let n := jnat inp "n"
   let t := jnat inp "t"
   let taproot := kind == "frost-taproot"
   let ps := (jarr inp "parties").map (parseParty taproot)
   let why : List String := []
-  let why := if ps.length != n then why ++ [s!"only {ps.length} of {n} parties completed"] else why
+  let why := if requireAll && ps.length != n then why ++ [s!"only {ps.length} of {n} parties completed"] else why
   if ps.isEmpty then why else
   let pubs := ps.map (·.pub)
   let why := if pubs.any Option.isNone then why ++ ["a public key does not decode"] else why
@@ -56,7 +56,7 @@ def judgeKeygen (inp : Json) : List String :=
   let pub := (pubs.headD none).getD .inf
   if kind == "doerner" then
     let sum := (ps.foldl (fun a p => a + p.share) 0) % q
-    let why := if mul sum G != pub then why ++ ["the two secret shares do not add up to the reported public key"] else why
+    let why := if ps.length == 2 && mul sum G != pub then why ++ ["the two secret shares do not add up to the reported public key"] else why
     why
   else
     let tables := ps.map fun p => sortTable p.table
@@ -67,7 +67,7 @@ def judgeKeygen (inp : Json) : List String :=
     let xs := ps.map fun p => idScalar p.id
     let why := if xs.any (· == 0) || !(xs.eraseDups.length == xs.length) then why ++ ["id scalars not distinct / zero (outside the property's domain)"] else why
     -- every (t+1)-subset reconstructs one secret whose public key is the group key; so do the table entries
-    let subsets := choose (t + 1) ps
+    let subsets := if ps.length ≥ t + 1 then choose (t + 1) ps else []
     let tbl := (ps.headD default).table
     let bad := subsets.filter fun S =>
       let sk := reconstruct (S.map fun p => (idScalar p.id, p.share))
@@ -75,6 +75,8 @@ def judgeKeygen (inp : Json) : List String :=
       mul sk G != pub || fromTable != pub
     let why := if !bad.isEmpty then why ++ [s!"{bad.length} of {subsets.length} subsets of size t+1 do not reconstruct the group key"] else why
     why
+
+def judgeKeygen (inp : Json) : List String := judgeKeygenWith true inp
 
 def judgeChain (inp : Json) : List String :=
   let ps := jarr inp "parties"
@@ -172,6 +174,25 @@ def judgeDerive (inp : Json) : List String :=
     let why := if child.any (fun p => p.pub != some expectPub) then why ++ ["derived public key differs from BIP-32 CKDpub"] else why
     why
 
+/-- C03 / C04 on a session with one deviating participant: every honest party that finished holds a correct
+    result, and no honest party names anybody but the deviating one -/
+def judgeTamper (inp : Json) : List String :=
+  let cheater := jstr inp "cheater"
+  let tampered := !(jarr inp "tampering").isEmpty
+  let whyResult :=
+    if jstr inp "phase" == "sign" then
+      -- any number of honest signers may have finished; each signature must verify and they must agree
+      judgeSign (inp.setObjVal! "expect" (Json.str "any"))
+    else judgeKeygenWith false inp
+  -- only errors the party detected itself count: an abort notice received from a peer is reported as coming from that
+  -- peer (who may merely relay it), which the property allows
+  let blame := (objPairs (jget inp "blame")).filter fun (_, b) => !((jstr b "err").splitOn "aborted by other party").length > 1
+  let named := blame.flatMap fun (who, b) => (jarr b "culprits").map fun c => (who, c.getStr?.toOption.getD "")
+  let wrong := named.filter fun (_, c) => c != cheater
+  let whyBlame := wrong.map fun (who, c) => s!"honest party {who} names {c}, who did not deviate (the deviating party is {cheater})"
+  let whyClean := if !tampered && !(objPairs (jget inp "blame")).isEmpty then ["an all-honest session ended with an error at an honest party"] else []
+  whyResult ++ whyBlame ++ whyClean
+
 def verdict (why : List String) : Json :=
   if why.isEmpty then jobj [("ok", true)] else jobj [("ok", false), ("why", Json.arr (why.map Json.str).toArray)]
 
@@ -184,6 +205,7 @@ def handle (op : String) (inp : Json) : Json :=
     verdict why
   | "sign" => verdict (judgeSign inp)
   | "refresh" => verdict (judgeRefresh inp)
+  | "tamper" => verdict (judgeTamper inp)
   | "derive" => verdict (judgeDerive inp)
   | _ => jobj [("error", "unknown op")]
 
